@@ -413,6 +413,51 @@ class Program:
             raise RuntimeError("facts file %s is incomplete (no end record)" % path)
         if self.end["functions"] != len(self.fns):
             raise RuntimeError("facts file %s: function count mismatch" % path)
+        self._materialise_trait_defaults()
+
+    # a provided (default) trait method inherited by an impl is, for that carrier, the default body with the impl's associated type put in.
+    # The rules know the carriers' methods by their impl paths (`<U8 as BitValue>::sign_fix`); an impl that inherits the method instead of
+    # spelling it out gets a synthetic function record with that path.  The associated type is read off a method the impl must define itself.
+    ASSOC_WITNESS = {("df::bit_value::BitValue", "ValueType"): ("u8_cast", 0)}
+
+    def _materialise_trait_defaults(self):
+        import copy
+        added = 0
+        for i in self.impls:
+            tr = i.get("trait")
+            if not tr or not isinstance(i.get("self"), dict):
+                continue
+            self_s = i["self"].get("s") or i["self"].get("path")
+            defaults = {q.rsplit("::", 1)[1]: g for q, g in self.fns.items() if q.startswith(tr + "::") and "::" not in q[len(tr) + 2:] and "Self" in (g.rec.get("generics") or [])}
+            if not defaults:
+                continue
+            for name, g in defaults.items():
+                ipath = "<%s as %s>::%s" % (self_s, tr, name)
+                if ipath in self.fns:
+                    continue
+                sub = {}
+                ok = True
+                for ty in g.rec["locals"]:
+                    s_ = ty.get("s") if isinstance(ty, dict) else None
+                    if isinstance(ty, dict) and ty.get("k") in ("other", "param", "projection") and s_:
+                        m = re.fullmatch(r"<Self as %s>::(\w+)" % re.escape(tr), s_)
+                        w = self.ASSOC_WITNESS.get((tr, m.group(1))) if m else None
+                        wf = self.fns.get("<%s as %s>::%s" % (self_s, tr, w[0])) if w else None
+                        if wf is None:
+                            ok = False
+                            break
+                        sub[s_] = wf.rec["locals"][w[1]]
+                if not ok:
+                    continue
+                rec = copy.deepcopy(g.rec)
+                rec["path"] = ipath
+                rec["generics"] = []
+                rec["impl"] = i.get("path")
+                rec["inherited_default"] = g.path
+                rec["locals"] = [copy.deepcopy(sub.get(ty.get("s"), ty)) if isinstance(ty, dict) and ty.get("k") in ("other", "param", "projection") else ty for ty in rec["locals"]]
+                self.fns[ipath] = Fn(rec)
+                added += 1
+        self.synthetic_defaults = added
 
     def absorbed_fns(self):
         """helpers and closures whose body was inlined at every place that calls them (inline.py) and that nothing else refers to: their
